@@ -2,6 +2,7 @@
 from __future__ import annotations
 
 import ast
+import os
 
 from .lin import Lin, Store, Infeasible
 from .avals import *   # noqa
@@ -59,6 +60,9 @@ class Event:
         return all(f not in ANCHORED for f in st[i + 1:])
 
 
+_ABLATE = frozenset(x for x in os.environ.get('CARDVERIF_ABLATE', '').split(',') if x)
+
+
 class Path:
     def __init__(self, it, outcome, value):
         self.choices = list(it.taken)
@@ -66,6 +70,11 @@ class Path:
         self.store = it.store
         self.events = it.events
         self.facts = it.facts
+        if _ABLATE:
+            # vacuity audit (tools/ablate.py): hide whole kinds of observations from the rules; an obligation that stays
+            # PROVED although everything it reads was hidden passes vacuously
+            self.events = [e for e in it.events if e.kind not in _ABLATE]
+            self.facts = [f for f in it.facts if ('fact:' + f[0]) not in _ABLATE]
         self.outcome = outcome      # 'return' | 'raise' | 'loopback' | 'abandon'
         self.value = value
         self.unknowns = it.unknowns
@@ -127,7 +136,7 @@ class Frame:
 class Analysis:
     """Explores every path of one entry computation."""
 
-    def __init__(self, prog, mode='inv', raise_ops=False, summaries=None, max_paths=40000,
+    def __init__(self, prog, mode='inv', raise_ops=False, summaries=None, max_paths=20000,
                  unroll=2, max_depth=12, hooks=None, drop_asserts=False):
         self.prog = prog
         self.mode = mode              # 'inv' (loop invariants) | 'unroll'
@@ -164,12 +173,21 @@ class Analysis:
         raise AnalysisError('loop invariant generalisation did not stabilise')
 
     def _explore_once(self, entry):
+        import time
         work = [()]
         paths = []
         self.dropped = 0
+        t0 = time.time()
+        budget = float(os.environ.get('CARDVERIF_TIME_BUDGET', '150'))
         while work:
             if len(paths) > self.max_paths:
                 raise AnalysisError(f'path budget exceeded ({self.max_paths})')
+            if len(paths) % 64 == 0 and time.time() - t0 > budget:
+                # a check must answer: an exploration that does not finish is "analysis incomplete" (exit 2), not a hang
+                from collections import Counter
+                hot = Counter(l for q in paths[-2000:] for l in q.interp.labels[-6:]).most_common(6)
+                raise AnalysisError(f'time budget of {budget:.0f}s exceeded after {len(paths)} abstract paths of one entry point '
+                                    f'(most frequent choice points: {hot})')
             prefix = work.pop()
             it = Interp(self, prefix)
             outcome, value = None, None
